@@ -1,4 +1,14 @@
+//! vf-list: C25 (write → read round trip), C26 (byte-range scans), C27 (listing-table partition pruning).
+mod c25;
+mod c26;
+mod c27;
+mod chunkstore;
+mod util;
+
 fn main() {
-    eprintln!("no sub-commands yet");
-    std::process::exit(2);
+    vf_kit::dispatch! {
+        "c25" => c25::C25,
+        "c26" => c26::C26,
+        "c27" => c27::C27,
+    }
 }
